@@ -325,7 +325,7 @@ theorem Unpaired.ciPrep_swap (hodd : ∀ x, fl (-x) = -fl x) (u : Unpaired (RR f
   have hb' : ¬ u.b.count < 2 := by omega
   unfold Unpaired.ciPrep
   simp only [ha', hb', if_false, RR.isFinite_eq, Bool.not_true, Bool.or_self, Bool.false_eq_true,
-    Outcome.map_ok, Prep.scale2, RR.up_eq, smul_one, effectiveDof_swap]
+    Outcome.map_ok, Prep.scale2, RR.up_eq, smul_one, effectiveDof_swap, Unpaired.clampDof_swap]
   congr 2
   · apply RR.ext'
     simp only [RR.sub_val, smul_val, neg_mul, one_mul, ← hodd]
